@@ -126,24 +126,35 @@ func ptrKey(p Ptr) string {
 }
 
 // atomic cells are ordinary memory in a sequential VM.
-func atomicLoad(st *State, _ *frame, _ *ssa.Function, a []Value) Value { return st.Load(a[0].(Ptr)) }
+func atomicLoad(st *State, _ *frame, _ *ssa.Function, a []Value) Value {
+	st.yield()
+	return st.Load(a[0].(Ptr))
+}
 func atomicStore(st *State, _ *frame, _ *ssa.Function, a []Value) Value {
+	st.yield()
 	st.Store(a[0].(Ptr), a[1])
+	st.progress()
 	return nil
 }
 func atomicAdd(st *State, _ *frame, _ *ssa.Function, a []Value) Value {
+	st.yield()
+	defer st.progress()
 	p := a[0].(Ptr)
 	n := term.MkBin(term.Add, st.Load(p).(*term.T), a[1].(*term.T))
 	st.Store(p, n)
 	return n
 }
 func atomicSwap(st *State, _ *frame, _ *ssa.Function, a []Value) Value {
+	st.yield()
+	defer st.progress()
 	p := a[0].(Ptr)
 	old := st.Load(p)
 	st.Store(p, a[1])
 	return old
 }
 func atomicCAS(st *State, _ *frame, _ *ssa.Function, a []Value) Value {
+	st.yield()
+	defer st.progress()
 	p := a[0].(Ptr)
 	old := st.Load(p)
 	if st.Branch(Equal(old, a[1])) {
@@ -286,9 +297,13 @@ func init() {
 
 		// sync --------------------------------------------------------------
 		"(*sync.Mutex).Lock": func(st *State, _ *frame, _ *ssa.Function, a []Value) Value {
+			st.yield()
 			k, s := st.lockState(a[0].(Ptr))
-			if s != 0 {
-				st.end("blocked", "Lock of a mutex already held (self-deadlock in sequential execution)")
+			for s != 0 {
+				if !st.block("Mutex.Lock") {
+					st.end("blocked", "Lock of a mutex already held (self-deadlock in sequential execution)")
+				}
+				k, s = st.lockState(a[0].(Ptr))
 			}
 			st.locks2()[k] = -1
 			return nil
@@ -307,12 +322,17 @@ func init() {
 				st.throwFatal("sync: unlock of unlocked mutex")
 			}
 			st.locks2()[k] = 0
+			st.progress()
 			return nil
 		},
 		"(*sync.RWMutex).Lock": func(st *State, _ *frame, _ *ssa.Function, a []Value) Value {
+			st.yield()
 			k, s := st.lockState(a[0].(Ptr))
-			if s != 0 {
-				st.end("blocked", "Lock of an RWMutex already held")
+			for s != 0 {
+				if !st.block("RWMutex.Lock") {
+					st.end("blocked", "Lock of an RWMutex already held")
+				}
+				k, s = st.lockState(a[0].(Ptr))
 			}
 			st.locks2()[k] = -1
 			return nil
@@ -323,12 +343,17 @@ func init() {
 				st.throwFatal("sync: Unlock of unlocked RWMutex")
 			}
 			st.locks2()[k] = 0
+			st.progress()
 			return nil
 		},
 		"(*sync.RWMutex).RLock": func(st *State, _ *frame, _ *ssa.Function, a []Value) Value {
+			st.yield()
 			k, s := st.lockState(a[0].(Ptr))
-			if s == -1 {
-				st.end("blocked", "RLock of a write-locked RWMutex")
+			for s == -1 {
+				if !st.block("RWMutex.RLock") {
+					st.end("blocked", "RLock of a write-locked RWMutex")
+				}
+				k, s = st.lockState(a[0].(Ptr))
 			}
 			st.locks2()[k] = s + 1
 			return nil
@@ -339,15 +364,21 @@ func init() {
 				st.throwFatal("sync: RUnlock of unlocked RWMutex")
 			}
 			st.locks2()[k] = s - 1
+			st.progress()
 			return nil
 		},
 		"(*sync.Once).Do": func(st *State, caller *frame, _ *ssa.Function, a []Value) Value {
 			p := a[0].(Ptr)
 			k := "once:" + ptrKey(p)
+			st.yield()
+			for st.locks2()[k] == 1 && st.block("Once.Do in progress") {
+			}
 			if st.locks2()[k] != 0 {
 				return nil
 			}
 			st.locks2()[k] = 1
+			// (like the real Once, a panicking f still counts as done)
+			defer func() { st.locks2()[k] = 2; st.progress() }()
 			st.call(a[1], nil, caller)
 			return nil
 		},
@@ -370,12 +401,19 @@ func init() {
 		"(*sync.WaitGroup).Done": func(st *State, _ *frame, _ *ssa.Function, a []Value) Value {
 			k := "wg:" + ptrKey(a[0].(Ptr))
 			st.locks2()[k]--
+			st.progress()
 			return nil
 		},
 		"(*sync.WaitGroup).Wait": func(st *State, _ *frame, _ *ssa.Function, a []Value) Value {
 			k := "wg:" + ptrKey(a[0].(Ptr))
-			if st.locks2()[k] > 0 {
-				st.end("blocked", "WaitGroup.Wait with pending count")
+			st.yield()
+			for st.locks2()[k] > 0 {
+				if st.block("WaitGroup.Wait") {
+					continue
+				}
+				if !st.runPending() {
+					st.end("blocked", "WaitGroup.Wait with pending count")
+				}
 			}
 			return nil
 		},
